@@ -9,10 +9,10 @@ for d in sorted(os.listdir(os.path.join(V, "seeded"))):
     if not os.path.isdir(p) or not os.path.exists(os.path.join(p, "patch.diff")):
         continue
     prop = d.split("-")[0]
-    log = open(os.path.join(p, "confirm.log")).read() if os.path.exists(os.path.join(p, "confirm.log")) else ""
-    out = open(os.path.join(p, "check.out")).read() if os.path.exists(os.path.join(p, "check.out")) else ""
-    notes = open(os.path.join(p, "NOTES.agent.md")).read() if os.path.exists(os.path.join(p, "NOTES.agent.md")) else ""
-    files = sorted(set(re.findall(r"^\+\+\+ b/(\S+)", open(os.path.join(p, "patch.diff")).read(), re.M)))
+    log = open(os.path.join(p, "confirm.log"), errors="replace").read() if os.path.exists(os.path.join(p, "confirm.log")) else ""
+    out = open(os.path.join(p, "check.out"), errors="replace").read() if os.path.exists(os.path.join(p, "check.out")) else ""
+    notes = open(os.path.join(p, "NOTES.agent.md"), errors="replace").read() if os.path.exists(os.path.join(p, "NOTES.agent.md")) else ""
+    files = sorted(set(re.findall(r"^\+\+\+ b/(\S+)", open(os.path.join(p, "patch.diff"), errors="replace").read(), re.M)))
     demo = [f for f in os.listdir(p) if f.startswith("demo") or f.endswith("_test.go") or f.endswith(".go.txt")]
     viols = re.findall(r"^# ([^:]+):", out, re.M)
     nv = len(re.findall(r"^VIOLATION", out, re.M))
